@@ -47,10 +47,14 @@ pub fn setup(name: &str, tier_depth: usize, max_rewinds: u32, wall: f64) -> (cra
     (u, cfg)
 }
 
-fn params(tier: Tier) -> Vec<(&'static str, usize, u32, f64)> {
+/// (universe, depth, rewinds, wall cap, segment-level alphabet?) — the segment-level alphabet (scans of
+/// single segments only) runs first: it reaches every scanned-set with few operations, so it gets
+/// deep (orders, repeats, rewind-then-backfill) even when the machine is slow; the free alphabet
+/// (every contiguous run, i.e. every batching) follows.
+fn params(tier: Tier) -> Vec<(&'static str, usize, u32, f64, bool)> {
     match tier {
-        Tier::Quick => vec![("tiny", 12, 1, 36.0)],
-        Tier::Thorough => vec![("tiny", 14, 2, 150.0), ("small", 12, 1, 330.0), ("mid", 8, 1, 380.0)],
+        Tier::Quick => vec![("tiny", 8, 1, 22.0, true), ("tiny", 12, 1, 14.0, false)],
+        Tier::Thorough => vec![("tiny", 14, 2, 120.0, true), ("tiny", 14, 2, 150.0, false), ("small", 12, 1, 280.0, false), ("mid", 8, 1, 300.0, false)],
     }
 }
 
@@ -76,15 +80,24 @@ pub fn run(args: &Args) -> i32 {
     );
     run.assume("expiry of an un-mined transaction with unknown expiry height is min_observed_height + 40 (documented in wallet/common.rs); while an orphaned transaction is unexpired only the bracket [ledger - spent_by_orphans, ledger + received_in_orphans] is required");
     run.assume("get_wallet_summary may return None while the wallet knows no chain tip");
-    for (name, depth, rewinds, wall) in params(args.tier) {
-        let (u, cfg) = setup(name, depth, rewinds, wall);
+    let (mut saw_complete, mut saw_spend) = (false, false);
+    for (name, depth, rewinds, wall, seg_level) in params(args.tier) {
+        let (u, mut cfg) = setup(name, depth, rewinds, wall);
+        if seg_level {
+            cfg.free_scans = false;
+            cfg.segment_scans = true;
+        }
+        let name = if seg_level { format!("{name}-segments") } else { name.to_string() };
+        let name = name.as_str();
         let fresh = (0..u.chains.len()).map(|c| graph::fresh_reference(&u, &cfg, c)).collect();
         let cx = Ctx { u: &u, cfg: &cfg, fresh };
         let (stats, failures) = graph::search(&cx, &[&graph::check_balance]);
         record(&run, name, &u, &cfg, &stats, failures);
-        run.require(stats.outcomes.contains_key("complete:matches-fresh") || run.failure_count() > 0, "no fully scanned state reached");
-        run.require(stats.outcomes.contains_key("spends:some") || run.failure_count() > 0, "no spend observed");
+        saw_complete |= stats.outcomes.contains_key("complete:matches-fresh");
+        saw_spend |= stats.outcomes.contains_key("spends:some");
     }
+    run.require(saw_complete || run.failure_count() > 0, "no fully scanned state reached in any search");
+    run.require(saw_spend || run.failure_count() > 0, "no spend observed in any search");
     run.sample(json!({"universe": "tiny", "ops": [Op::Scan{from: universes::FIRST + 2, to: universes::FIRST + 2}, Op::Tip{h: universes::FIRST + 4}, Op::Scan{from: universes::FIRST, to: universes::FIRST + 1}, Op::Rewind{h: universes::FIRST + 1, switch: 1}]}));
     run.finish(&replay)
 }
@@ -118,6 +131,6 @@ pub fn record(run: &Run, name: &str, u: &crate::universe::Universe, cfg: &Cfg, s
             Some(sig) => sig.to_string(),
             None => format!("{name}:{}", f.history.iter().map(|o| format!("{o:?}")).collect::<Vec<_>>().join(";")),
         };
-        run.fail("history", key, f.msg, json!({"universe": name, "ops": f.history}));
+        run.fail("history", key, f.msg, json!({"universe": name.trim_end_matches("-segments"), "ops": f.history}));
     }
 }
